@@ -10,7 +10,7 @@ import ast
 from ..rulekit import *
 from ..norm import Normalizer, NormError
 from ..exc import EscapeAnalysis
-from ._kit_c06 import SymExec, ShapedEscapes, txt, parse as P, callable_body, _walk_values, apply_callable, filtered_iter, handler_types
+from ._kit_c06 import SymExec, ShapedEscapes, txt, parse as P, callable_body, _walk_values, apply_callable, filtered_iter, handler_types, inline_walrus
 
 R = Rules(
     "C06",
@@ -18,18 +18,25 @@ R = Rules(
         "Structural clauses of server-side block-wise handling: (a) the escape set of Block1Spool.feed_and_take over its "
         "resolved closure is a subset of {ContinueException (2.31), IncompleteException (4.08), error.BadRequest (4.00)} -- "
         "anything else becomes 5.00; (b) the Continue response echoes the request's own Block1 option; (c) the transfer key "
-        "is (remote.blockwise_key, code, cache key without Block1/Block2/Observe); (d) on every path of "
+        "is (remote.blockwise_key, code, cache key without Block1/Block2/Observe), the cache key holds (number, value) of "
+        "every option except the ignored and the safe-to-forward NoCacheKey ones (none of the others is left out), the UDP "
+        "endpoint's blockwise_key holds the complete socket address; (d) on every path of "
         "_append_request_block the assembly is extended exactly when `block1.start == len(payload)` (otherwise it raises "
         "and leaves the assembly untouched) and a non-final block of the wrong size raises BadRequest; (e) feed_and_take "
         "returns normally only without Block1 or with the more-flag clear, block 0 (re)starts and later blocks extend the "
         "assembly of the same transfer key, and the handler is rendered only with what feed_and_take returned; (f) the "
         "Block2 cache renders on exactly the paths on which Block2 is absent or number 0, otherwise looks up (KeyError -> "
-        "4.08) and slices through _extract_block, which on every path raises 4.00 iff NUM*2**(SZX+4) >= len(body), returns "
-        "body[start:min(start+size, len)] and sets the more-flag iff start+size < len(body); (g) TimeoutDict refreshes on "
+        "4.08); the rendering is served whole iff it fits the transport's payload limit and the requested block size, else "
+        "stored and sliced through _extract_block with the request's own number / size exponent (0 and the peer's maximum "
+        "exponent without Block2), which on every path raises 4.00 iff NUM*2**(SZX+4) >= len(body), returns "
+        "body[start:min(start+size, len)] and sets the more-flag iff start+size < len(body); nothing but 4.08/4.00 escapes "
+        "-- Message.copy and Message.__init__ are analysed for the keyword sets and values _extract_block passes (no "
+        "Type(None), no URI parsing, no None payload, no left-over keyword that is not an option); (g) TimeoutDict returns "
+        "the stored value and raises KeyError for an absent key, refreshes on "
         "get and set, _tick keeps exactly the recently accessed keys and re-arms iff items remain, and both stores use "
         "MAX_TRANSMIT_WAIT (paper step: lifetime in [T, 2T]).  Interleavings of several clients at run time are not decided."
     ),
-    rule_text="escape sets over the resolved call graph with class-code facts; symbolic path facts (interval facts for block arithmetic, truth facts otherwise) with forward-substituted values",
+    rule_text="escape sets over the resolved call graph with class-code facts, call shapes decided by abstract execution of the callee (keyword sets, sentinels, values); symbolic path facts (interval facts with transitive difference bounds for block arithmetic, truth facts otherwise) with forward-substituted values, namedtuple components / properties / helper functions read as their definitions",
 )
 
 BW = "blockwise."
@@ -224,6 +231,15 @@ def _field_of(e, fields):
     return ("of", base, idx)
 
 
+def _as_block_tuple(v, fields):
+    """BlockwiseTuple(a, b, c) / BlockwiseTuple(block_number=a, ...) as the tuple (a, b, c)"""
+    if isinstance(v, ast.Call) and (chain(v.func) or "").split(".")[-1] == "BlockwiseTuple" and not any(isinstance(a, ast.Starred) for a in v.args) and not any(k.arg is None for k in v.keywords):
+        got = [_arg(v, i, f) for i, f in enumerate(fields)]
+        if all(x is not None for x in got) and len(v.args) + len(v.keywords) == len(fields):
+            return ast.Tuple(elts=got, ctx=ast.Load())
+    return v
+
+
 def _is_field(e, fields, base, name):
     r = _field_of(e, fields)
     return r[0] == "of" and same(r[1], base) and r[2] == fields.index(name)
@@ -378,10 +394,18 @@ def b(ctx):
     for p in tpaths:
         rnode = next((ev.node for ev in reversed(p.events) if ev.kind == "ret"), tm.node)
         ret = p.ret
-        w = [ev for ev in p.evs("store") if isinstance(ev.target, ast.Attribute) and ev.target.attr == "block1" and ret is not None and same(ev.target.value, ast.Attribute(value=ret, attr="opt", ctx=ast.Load()))]
-        okw = len(w) >= 1 and same(w[-1].value, P("self.%s" % attr))
-        ag.add("to_message writes exactly that value into the response's Block1 option", okw, w[-1].node if w else rnode, construct="ContinueException.to_message block1", detail="stored %s" % (txt(w[-1].value) if w else None))
-        ag.add("the response is the error's own rendering (code 2.31)", ret is not None and match("super().to_message()", ret) is not None, rnode, construct="ContinueException.to_message result")
+        base, stored = ret, None
+        # the option given as a keyword of Message.copy (`m.copy(block1=v)`: a copy of m with that option set -- what
+        # copy() does with left-over keywords is part of C06.f) is the same fact as a later `m.opt.block1 = v`
+        if isinstance(ret, ast.Call) and isinstance(ret.func, ast.Attribute) and ret.func.attr == "copy" and not ret.args and [k.arg for k in ret.keywords] == ["block1"]:
+            base, stored = ret.func.value, ret.keywords[0].value
+        w = [ev for ev in p.evs("store") if isinstance(ev.target, ast.Attribute) and ev.target.attr == "block1" and base is not None and same(ev.target.value, ast.Attribute(value=base, attr="opt", ctx=ast.Load()))]
+        if w:
+            stored = w[-1].value
+        okw = stored is not None and same(stored, P("self.%s" % attr))
+        ag.add("to_message writes exactly that value into the response's Block1 option", okw, w[-1].node if w else rnode, construct="ContinueException.to_message block1", detail="stored %s" % (txt(stored) if stored is not None else None))
+        n_render = sum(1 for ev, c_, r in st.calls(p) if isinstance(r.func, ast.Attribute) and r.func.attr == "to_message")
+        ag.add("the response is the error's own rendering (code 2.31)", base is not None and match("super().to_message()", base) is not None and n_render == 1, rnode, construct="ContinueException.to_message result", detail="%d rendering call(s) on the path" % n_render)
     ag.flush()
 
 
@@ -453,13 +477,31 @@ def c(ctx):
         ag.add("third component is the cache key ignoring exactly Block1, Block2 and Observe", ign == {"BLOCK1", "BLOCK2", "OBSERVE"}, rnode, construct="_extract_block_key component 3", detail="%s ignoring %s" % (txt(c3), sorted(ign) if ign is not None else None))
     ag.flush()
     # blockwise_key of the UDP address keeps sockaddr (and local address)
-    bk = prog.cls("transports.udp6.UDP6EndpointAddress").methods.get("blockwise_key")
-    ctx.need(bk is not None, "UDP6EndpointAddress.blockwise_key missing")
-    sb = SymExec(prog, bk)
-    bpaths = [p for p in sb.paths() if p.end != "raise"]
-    ctx.need(bpaths, "UDP6EndpointAddress.blockwise_key has no normal path")
-    okk = all(p.ret is not None and any(chain(x) == "self.sockaddr" for x in ast.walk(p.ret)) for p in bpaths)
-    ctx.ob("the UDP endpoint's blockwise_key contains the peer socket address", okk, bk, bk.node, construct="UDP6EndpointAddress.blockwise_key")
+    ucls = prog.cls("transports.udp6.UDP6EndpointAddress")
+    bk = ucls.methods.get("blockwise_key")
+    SOCK = P("self.sockaddr")
+
+    def whole(v):
+        # the complete socket address (host AND port ...) is a component of the key -- not a part of it like sockaddr[0]
+        if same(v, SOCK):
+            return True
+        return isinstance(v, (ast.Tuple, ast.List)) and any(whole(x) for x in v.elts)
+
+    if bk is not None:
+        sb = SymExec(prog, bk)
+        bpaths = [p for p in sb.paths() if p.end != "raise"]
+        ctx.need(bpaths, "UDP6EndpointAddress.blockwise_key has no normal path")
+        okk = all(p.ret is not None and whole(p.ret) for p in bpaths)
+        ctx.ob("the UDP endpoint's blockwise_key contains the peer socket address", okk, bk, bk.node, construct="UDP6EndpointAddress.blockwise_key")
+    else:
+        # blockwise_key = property(<callable>): the callable applied to the instance
+        pv = ucls.attrs.get("blockwise_key")
+        ctx.need(isinstance(pv, ast.Call) and chain(pv.func) == "property" and len(pv.args) == 1 and not pv.keywords, "UDP6EndpointAddress.blockwise_key missing")
+        anyf = next(iter(ucls.methods.values()))
+        sb = SymExec(prog, anyf)
+        v = apply_callable(sb, None, sb.subst(pv.args[0], sb.module_env()), [ast.Name(id="self", ctx=ast.Load())], anyf.module.imports) if not isinstance(pv.args[0], ast.Name) or pv.args[0].id not in ucls.methods else None
+        ctx.need(v is not None, "UDP6EndpointAddress.blockwise_key: property(%s) is outside the rule's vocabulary" % txt(pv.args[0]))
+        ctx.ob("the UDP endpoint's blockwise_key contains the peer socket address", whole(sb.subst(v, {})), None, None, construct="UDP6EndpointAddress.blockwise_key", detail=txt(v))
     # get_cache_key: an option enters the key as (number, value), and never when its number is listed in ignore_options
     gk = prog.func("message.Message.get_cache_key")
     ig = params(gk)[0]
@@ -545,7 +587,10 @@ def c(ctx):
                         tgt, conds = el, list(r[1])
                 if tgt is None:
                     continue
+                if any(isinstance(x, ast.NamedExpr) for c_ in conds + [elt] for x in ast.walk(c_)):
+                    *conds, elt = inline_walrus(sg, conds + [elt])
                 cond = ast.BoolOp(op=ast.And(), values=conds) if len(conds) > 1 else (conds[0] if conds else ast.Constant(value=True))
+                cond = sg.subst(cond, p.env, p.chains)
                 sg._defs_now = p.defs
                 sg._env_now = p.env
                 decided = list(sg.decide(cond, p.facts))
@@ -620,6 +665,7 @@ def e(ctx):
     K = P("_extract_block_key(%s)" % rq)
     RQ = ast.Name(id=rq, ctx=ast.Load())
     F = "self._assemblies"
+    EA_e = ShapedEscapes(prog)
     ctx.floor("normal paths of feed_and_take", len([p for p in paths if p.end == "return"]), 2)
     ctx.ob("feed_and_take is atomic (plain def)", is_plain_sync(fi), fi, fi.node, construct="def feed_and_take")
     ag = _Agg(ctx, fi)
@@ -643,6 +689,10 @@ def e(ctx):
         for ev, n, key in _reads(sx, p, F):
             ag.add("every access to the spool uses the transfer key of this request", same(key, K), ev.node, construct="feed_and_take key uses", detail=txt(key))
         if p.end == "raise":
+            if _end_class(EA_e, fi, p) == CONT:
+                # the block that is acknowledged with 2.31 must have gone into the assembly before
+                for z, f2 in sx.decide(ZERO, p.facts):
+                    ag.add("a block acknowledged with 2.31 Continue has been stored (block 0) or appended (later blocks)", (bool(stores) if z else (bool(apps) and not stores)), rnode, construct="feed_and_take: acknowledged block", detail=_where(sx, f2))
             continue
         for nob1, f in sx.decide(NOB1, p.facts):
             if nob1:
@@ -672,10 +722,16 @@ def e(ctx):
     eoi = prog.func(BW + "Block2Cache.extract_or_insert")
     eoi_p = params(eoi)
     for p in rpaths:
-        tests = [ev for ev in p.evs("test") if match("await self.needs_blockwise_assembly($r)", ev.value) is not None]
-        if not tests or p.end == "raise":
+        # the path's answer to `await self.needs_blockwise_assembly(request)`, however the test is spelled
+        needs = [n for ev in p.evs("test") if isinstance(ev.value, ast.AST) for n in ast.walk(ev.value) if match("await self.needs_blockwise_assembly($r)", n) is not None]
+        if not needs or p.end == "raise":
             continue
-        asm = tests[-1].outcome
+        if sr.entails(p.facts, needs[-1]):
+            asm = True
+        elif sr.refutes(p.facts, needs[-1]):
+            asm = False
+        else:
+            continue
         calls = list(sr.calls(p))
         direct = [(ev, c_, r) for ev, c_, r in calls if chain(r.func) == "self.render"]
         feeds = [(i, ev, c_, r) for i, (ev, c_, r) in enumerate(calls) if isinstance(r.func, ast.Attribute) and r.func.attr == "feed_and_take"]
@@ -683,7 +739,7 @@ def e(ctx):
         if asm:
             n_asm += 1
             anchor = (e2[0][2] if e2 else (feeds[0][2] if feeds else rp.node))
-            ag.add("with block-wise assembly the handler is rendered only after feed_and_take returned normally", bool(feeds) and not direct and bool(e2) and all(feeds[0][0] < x[0] for x in e2), direct[0][1] if direct else anchor, construct="_render_to_pipe: assembly before rendering")
+            ag.add("with block-wise assembly the handler is rendered only after feed_and_take returned normally", len(feeds) == 1 and not direct and bool(e2) and all(feeds[0][0] < x[0] for x in e2), direct[0][1] if direct else anchor, construct="_render_to_pipe: assembly before rendering", detail="%d feed_and_take call(s)" % len(feeds))
             if not feeds or not e2:
                 continue
             fed = feeds[0][3]
@@ -705,34 +761,51 @@ def e(ctx):
 
 
 def _explicit_kwargs(sx, p, call, facts):
-    """[(keyword dict, facts)] of a resolved call: explicit keywords plus `**{...}` displays (also behind a local) whose
-    keys evaluate to string constants; None when a key cannot be evaluated."""
+    """[(keyword dict, facts)] of a resolved call: explicit keywords plus `**mapping` arguments whose mapping is a
+    display `{"k": v}` / `dict(k=v)` with constant keys, also behind a local and behind a conditional expression (one
+    variant per alternative); None when a key cannot be evaluated."""
+
+    def mapping_items(d):
+        if isinstance(d, ast.Dict):
+            out = {}
+            for kk, vv in zip(d.keys, d.values):
+                if not (isinstance(kk, ast.Constant) and isinstance(kk.value, str)):
+                    return None
+                out[kk.value] = vv
+            return out
+        if isinstance(d, ast.Call) and chain(d.func) == "dict" and not d.args and all(k.arg is not None for k in d.keywords):
+            return {k.arg: k.value for k in d.keywords}
+        return None
+
+    variants = [({}, facts)]
+    base = None
+    for v, f in sx.value(call, facts):
+        base = v
+        break
+    if base is None:
+        return None
     out = []
     for v, f in sx.value(call, facts):
-        kw = {}
-        ok = True
+        partial = [({}, f)]
         for k in v.keywords:
             if k.arg is not None:
-                kw[k.arg] = k.value
+                for kw, _f in partial:
+                    kw[k.arg] = k.value
                 continue
             d = k.value
             if isinstance(d, ast.Name) and d.id in p.objs:
                 d = p.objs[d.id]
-                got = list(sx.value(d, f))
-                if len(got) != 1:
-                    return None
-                d, f = got[0]
-            if not isinstance(d, ast.Dict):
-                ok = False
-                break
-            for kk, vv in zip(d.keys, d.values):
-                if isinstance(kk, ast.Constant) and isinstance(kk.value, str):
-                    kw[kk.value] = vv
-                else:
-                    ok = False
-        if not ok:
-            return None
-        out.append((kw, f))
+            nxt = []
+            for kw, f0 in partial:
+                for dv, f1 in sx.value(d, f0):
+                    if isinstance(dv, ast.Name) and dv.id in p.objs:
+                        dv = p.objs[dv.id]
+                    items = mapping_items(dv)
+                    if items is None:
+                        return None
+                    nxt.append((dict(kw, **items), f1))
+            partial = nxt
+        out.extend(partial)
     return out
 
 
@@ -886,7 +959,17 @@ def f(ctx):
         ctx.need(isinstance(ret, ast.Call) and chain(ret.func) == "self.copy", "_extract_block does not return self.copy(...)")
         kws = _explicit_kwargs(xs, p, ret, p.facts)
         ctx.need(kws is not None and len(kws) >= 1, "_extract_block: keyword arguments of copy() are not constant names")
+        # an option assigned to the copy afterwards (`m = self.copy(..); m.opt.block2 = v`) is the same fact as the keyword
+        later = {}
+        for sev in p.evs("store"):
+            t_ = sev.target
+            if isinstance(t_, ast.Attribute) and isinstance(t_.value, ast.Attribute) and t_.value.attr == "opt" and same(t_.value.value, ret):
+                later[t_.attr] = sev.value
         for kw, f_ in kws:
+            kw = dict(kw, **later)
+            for k_ in ("block1", "block2"):
+                if k_ in kw:
+                    kw[k_] = _as_block_tuple(kw[k_], fields)
             pay = kw.get("payload")
             sl = pay if isinstance(pay, ast.Subscript) and chain(pay.value) == "self.payload" and isinstance(pay.slice, ast.Slice) and pay.slice.step is None else None
             opts = [k for k in ("block1", "block2") if k in kw]
@@ -961,6 +1044,48 @@ def _as_filtered_dict(st, p, comp, imports):
         it, conds = r
         return comp.key, comp.value, tgt, it, list(conds) + list(g_.ifs)
     return None
+
+
+def _dict_sets(sx, p, coll, key, value):
+    """On this path, is `coll[key]` made `value`?  coll[key] = value; coll.update({key: value}) / coll |= {key: value};
+    coll = {**coll, key: value}; coll = coll | {key: value} (the right operand wins -- `{key: value} | coll` does not)."""
+
+    def gives(d):
+        # a dict display whose LAST entry for key is key: value
+        if isinstance(d, ast.Name) and d.id in p.objs:
+            d = p.objs[d.id]
+        if isinstance(d, ast.Dict):
+            for kk, vv in reversed(list(zip(d.keys, d.values))):
+                if kk is None:
+                    return False  # a later **mapping may override
+                if same(kk, key):
+                    return same(vv, value)
+            return False
+        if isinstance(d, ast.Call) and chain(d.func) == "dict" and len(d.args) == 1 and not d.keywords and isinstance(d.args[0], (ast.List, ast.Tuple)) and len(d.args[0].elts) == 1:
+            it = d.args[0].elts[0]
+            return isinstance(it, ast.Tuple) and len(it.elts) == 2 and same(it.elts[0], key) and same(it.elts[1], value)
+        return False
+
+    def merged(v):
+        # new dictionary value that contains key: value on top of the old entries
+        if isinstance(v, ast.BinOp) and isinstance(v.op, ast.BitOr):
+            return chain(v.left) == coll and gives(v.right)
+        if isinstance(v, ast.Dict) and v.keys and v.keys[0] is None and chain(v.values[0]) == coll:
+            return gives(ast.Dict(keys=v.keys[1:], values=v.values[1:]))
+        return False
+
+    for ev in p.events:
+        if ev.kind == "setitem" and chain(ev.target) == coll and same(ev.key, key) and same(ev.value, value):
+            return True
+        if ev.kind == "store" and isinstance(ev.target, ast.AST) and chain(ev.target) == coll and merged(ev.value):
+            return True
+    for ev, c_, r in sx.calls(p):
+        if isinstance(r.func, ast.Attribute) and chain(r.func.value) == coll and r.func.attr in ("update", "__setitem__"):
+            if r.func.attr == "__setitem__" and len(r.args) == 2 and same(r.args[0], key) and same(r.args[1], value):
+                return True
+            if r.func.attr == "update" and len(r.args) == 1 and not r.keywords and gives(r.args[0]):
+                return True
+    return False
 
 
 def _get_with_default(e, coll, key):
@@ -1041,6 +1166,7 @@ def _tick_filter(ctx, st, tk, p):
             if roles is None or not (same(key_, roles[0]) and same(value_, roles[1])):
                 return False, "element %s: %s for %s in %s" % (txt(key_), txt(value_), txt(target_), txt(iter_)), V, widx, anchor
             cond = ast.BoolOp(op=ast.And(), values=list(conds_)) if len(conds_) > 1 else (conds_[0] if conds_ else ast.Constant(value=True))
+            cond = st.subst(cond, ws[-1].env, ws[-1].chains)  # free variables of a lambda predicate: the locals at the assignment
             # predicates given as nested functions are evaluated in place, with the locals in force at the assignment
             st._defs_now = p.defs
             st._env_now = ws[-1].env
@@ -1152,6 +1278,18 @@ def g(ctx):
             site = site or (acc[0] if acc else None)
             ok = ok and bool(acc)
         ctx.ob("%s marks the key as recently used on every normal path" % name, ok and site is not None, fi, site if site is not None else fi.node, construct="TimeoutDict.%s refresh" % name)
+        if name == "__setitem__":
+            val = params(fi)[1]
+            K_ = ast.Name(id=key, ctx=ast.Load())
+            V_ = ast.Name(id=val, ctx=ast.Load())
+            oks, node = True, fi.node
+            for p in sx.paths():
+                if p.end == "raise":
+                    continue
+                if not _dict_sets(sx, p, "self._items", K_, V_):
+                    oks = False
+                    node = next((ev.node for ev in p.events if ev.kind in ("store", "setitem", "expr")), fi.node)
+            ctx.ob("__setitem__ stores the value under the key", oks, fi, node, construct="TimeoutDict.__setitem__ store")
         if name != "__getitem__":
             continue
         # what the spool and the cache rely on: a lookup returns the stored value, and raises KeyError for an absent key
@@ -1231,6 +1369,8 @@ def g(ctx):
         for remain, f_ in st.decide(V, p.facts):
             if remain:
                 ag.add("_tick re-arms iff items remain (after filtering)", bool(late) and not early, (early or late or [anchor])[0], construct="TimeoutDict._tick re-arm", detail=_where(st, f_))
+                undone = [ev for ev in list(_stores(p, "self._timeout", "store")) + list(_stores(p, "self._recently_accessed", "store")) if so_calls and p.events.index(ev) > so_calls[-1][0]]
+                ag.add("a re-armed timer is not marked as stopped afterwards", not undone, undone[0].node if undone else anchor, construct="TimeoutDict._tick re-arm kept", detail=_where(st, f_))
             else:
                 ag.add("_tick re-arms iff items remain (after filtering)", not so_calls, so_calls[0][1] if so_calls else anchor, construct="TimeoutDict._tick re-arm", detail=_where(st, f_))
                 ag.add("otherwise the timer is marked as not running", bool(idle), idle[0].node if idle else anchor, construct="TimeoutDict._tick idle", detail=_where(st, f_))
@@ -1300,3 +1440,8 @@ R.seed("C06.f", F_B, "            or req.opt.block2 is not None\n", "           
 R.seed("C06.f", F_M, "        new.mtype = Type(kwargs.pop(\"mtype\")) if \"mtype\" in kwargs else self.mtype\n", "        new.mtype = Type(kwargs.pop(\"mtype\", self.mtype))\n", "copy() converts the inherited mtype: Type(None) -> ValueError -> 5.00 for every sliced response")
 R.seed("C06.f", F_M, "        if \"uri\" in kwargs:\n            new.set_request_uri(kwargs.pop(\"uri\"))\n", "        if \"uri\" not in kwargs:\n            new.set_request_uri(self.get_request_uri())\n", "copy() re-parses the URI when none is given: URL errors -> 5.00")
 R.seed("C06.f", F_M, "        new.mid = kwargs.pop(\"mid\", self.mid)\n", "        new.mid = self.mid\n", "mid= stays among the left-over keywords and is set as an option: AttributeError -> 5.00")
+R.seed("C06.g", F_T, "        self._items[key] = value\n        self._accessed(key)\n", "        self._items.setdefault(key, value)\n        self._accessed(key)\n", "a key that is set again keeps its old value: a transfer restarted with block 0 continues the stale assembly")
+R.seed("C06.g", F_T, "            self._start_over()\n        else:\n            self._timeout = None\n", "            self._start_over()\n        if True:\n            self._timeout = None\n", "the re-armed timer is marked as stopped: the next access arms a second one and forgets the recently used keys")
+R.seed("C06.e", F_B, "        if req.opt.block1.block_number == 0:\n            # silently discarding any old incomplete operation\n            self._assemblies[block_key] = req\n        else:\n", "        if req.opt.block1.block_number == 0 and not req.opt.block1.more:\n            # silently discarding any old incomplete operation\n            self._assemblies[block_key] = req\n        elif req.opt.block1.block_number != 0:\n", "block 0 of a longer body is acknowledged with 2.31 but never stored")
+R.seed("C06.b", F_B, "        m = super().to_message()\n        m.opt.block1 = self.block1\n        return m\n", "        super().to_message().opt.block1 = self.block1\n        return super().to_message()\n", "the Block1 echo is written into one rendering and another one is returned")
+R.seed("C06.c", "aiocoap/transports/udp6.py", "        return (self.sockaddr, self.pktinfo)\n", "        return (self.sockaddr[0], self.pktinfo)\n", "only the peer's host, not its port, separates transfers")
